@@ -113,7 +113,16 @@ def user_event_class():
         from pydsol.core.simevent import SimEvent
 
         class TaggedSimEvent(SimEvent):
-            """a user model may define its own event class"""
+            """a user model may define its own event class; this one calls the handler directly, so a failing handler's
+            OWN exception (not a DSOLError wrapper) reaches the simulator: fault containment must not depend on the wrapper"""
+
+            def execute(self):
+                try:
+                    self._method(**self._kwargs)
+                except Exception:
+                    raise
+                except BaseException as ex:       # (not an Exception: by Python's convention it would be meant to escape)
+                    raise RuntimeError(str(ex)) from ex
         _UEC = TaggedSimEvent
     return _UEC
 
@@ -207,6 +216,8 @@ class SimCtl:
         sim, c = self.sim, self.conc
         for o in ops:
             k, a, p = o["k"], o["a"], o["p"]
+            if isinstance(p, int) and p < 10:
+                p += (0, -1, -5)[len(c.full) % 3]     # priorities are any ints (0 and negative ones too): a monotone shift per concretisation (10 = the warm-up event's own priority stays)
             self.alt += 1
             try:
                 if k == "cancel":
